@@ -1552,7 +1552,10 @@ const MIRI_MAXLEN: usize = 2;
 /// (number of target types, depth): the union of both spaces is enumerated
 const MIRI_CONFIGS: [(usize, usize); 2] = [(1, 4), (2, 3)];
 const MIRI_OCHAIN: usize = 2;
-const MIRI_OTARGETS: usize = 2;
+const MIRI_OTARGETS: usize = 1;
+/// one family per element layout ([f32; 3], [f32; 4], [f64; 3]): the guard and cast code is
+/// generic, only size and alignment differ between the families
+const MIRI_FAMILIES: [&str; 3] = ["Srgb<f32>", "Srgba<f32>", "Srgb<f64>"];
 
 static QUIET: std::sync::atomic::AtomicBool = std::sync::atomic::AtomicBool::new(false);
 
@@ -1652,7 +1655,7 @@ fn miri_inner(args: &[String]) -> i32 {
     let out = std::io::stdout();
     // guard units: (family, buffer), the expensive ones (longest buffers) first
     let mut units: Vec<(usize, Vec<u8>, usize, usize)> = vec![];
-    for (fi, f) in fams.iter().enumerate() {
+    for (fi, f) in fams.iter().enumerate().filter(|(_, f)| MIRI_FAMILIES.contains(&f.name)) {
         for buf in miri_buffers(f, maxlen) {
             for (nt, depth) in MIRI_CONFIGS {
                 units.push((fi, buf.clone(), nt, depth));
@@ -1660,10 +1663,15 @@ fn miri_inner(args: &[String]) -> i32 {
         }
     }
     units.sort_by_key(|(fi, b, _, d)| (std::cmp::Reverse(*d), std::cmp::Reverse(b.len()), *fi));
+    // snake order over the jobs: units are sorted by cost, so the loads are about equal
+    let owner = |unit: usize| -> usize {
+        let (r, p) = (unit / njobs, unit % njobs);
+        if r % 2 == 0 { p } else { njobs - 1 - p }
+    };
     for (fi, buf, ntargets, depth) in &units {
         let (ntargets, depth) = (*ntargets, *depth);
         unit += 1;
-        if (unit - 1) % njobs != job {
+        if owner(unit - 1) != job {
             continue;
         }
         let f = &fams[*fi];
@@ -1696,7 +1704,7 @@ fn miri_inner(args: &[String]) -> i32 {
     // owning forms: every shape len 0..=maxlen x extra capacity 0..=1, chains up to `ochain`
     let mut osink = OSink::default();
     let mut oseqs = 0u64;
-    for (fi, f) in fams.iter().enumerate().filter(|(_, f)| f.kind == "slice") {
+    for (fi, f) in fams.iter().enumerate().filter(|(_, f)| f.kind == "slice" && MIRI_FAMILIES.contains(&f.name)) {
         let mut alphabet = vec![];
         for how in 0..4u8 {
             for to in 0..=(ntargets as u8).min(f.nt()) {
@@ -1705,7 +1713,7 @@ fn miri_inner(args: &[String]) -> i32 {
         }
         for cont in ["vec", "box"] {
             unit += 1;
-            if (unit - 1) % njobs != job {
+            if owner(unit - 1) != job {
                 continue;
             }
             for buf in miri_buffers(f, maxlen) {
@@ -1845,7 +1853,7 @@ fn miri_check(ctx: &Ctx, total: &mut Collector, fams: &[Fam]) {
     }
     c.note("miri/jobs", json!({"jobs": njobs, "completed_without_error": ok_jobs, "cases": cases, "operations": opsn}));
     c.add("miri", cases, opsn.max(cases), cases, cases);
-    c.exhaustive("miri", ok_jobs == njobs, &format!("under Miri (Stacked Borrows, default flags): 5 original types x {{slice of length 0..={MIRI_MAXLEN}; single value}} x ALL guard operation sequences (by typestate, unmerged) up to depth 4 with the first target type and up to depth 3 with the first two target types, and Vec / Box<[T]> owning chains up to {MIRI_OCHAIN} over 3 element types and every shape len 0..={MIRI_MAXLEN} x extra capacity 0..=1; flags (address, length, neighbours, restore's reference) checked, any undefined behaviour aborts the job and is reported with the case being executed"));
+    c.exhaustive("miri", ok_jobs == njobs, &format!("under Miri (Stacked Borrows, default flags): 3 original types (one per element layout: Srgb<f32>, Srgba<f32>, Srgb<f64>) x {{slice of length 0..={MIRI_MAXLEN}; single value}} x ALL guard operation sequences (by typestate, unmerged) up to depth 4 with the first target type and up to depth 3 with the first two target types, and Vec / Box<[T]> owning chains up to {MIRI_OCHAIN} over 2 element types x 4 spellings and every shape len 0..={MIRI_MAXLEN} x extra capacity 0..=1; flags (address, length, neighbours, restore's reference) checked, any undefined behaviour aborts the job and is reported with the case being executed"));
     total.merge(c);
 }
 
